@@ -105,7 +105,7 @@ def ensure_target(flavour, src, extra_cxx=(), extra_ld=(), with_rc=True, name=No
               "-lpika", "-lfmt", "-lspdlog", "-lhwloc", "-latomic"]
            + (["-lrapidcheck"] if with_rc else []) + list(extra_ld))
     if flavour == "mpi":
-        cmd += ["-I/usr/lib/x86_64-linux-gnu/openmpi/include", "-lmpi"]
+        cmd += ["-I/usr/lib/x86_64-linux-gnu/openmpi/include", "-DOMPI_SKIP_MPICXX", "-lmpi"]
     sig = hashlib.sha1(" ".join(cmd).encode()).hexdigest()
     with Lock("t-" + flavour + "-" + name):
         need = True
